@@ -212,6 +212,8 @@ func Run(job *wk.Job, w *wk.Worker) error {
 		err = runSched(job, w, &p)
 	case "stress":
 		err = runStress(job, w, &p)
+	case "burst":
+		err = runBurst(job, w, &p)
 	default:
 		err = fmt.Errorf("unknown mode %q", p.Mode)
 	}
@@ -804,7 +806,7 @@ func stressRound(w *wk.Worker, p *Params, rc roundCfg) {
 				func() {
 					defer func() {
 						if x := recover(); x != nil {
-							ss[i].got = result{err: "panic: " + fmt.Sprint(x)}
+							ss[i].got = result{err: "panic: " + fmt.Sprint(x) + " @ " + libFrames()}
 						}
 					}()
 					ss[i].got = ss[i].o.run()
@@ -840,6 +842,112 @@ func stressRound(w *wk.Worker, p *Params, rc roundCfg) {
 	if w.WantSample() {
 		w.Sample(map[string]interface{}{"round": rc, "operations": len(cat), "cold_types": len(cold)})
 	}
+}
+
+// ---- part B: bursts ----
+//
+// For every cold generated type: G goroutines spin on a flag and then use the type for the first time
+// at the same instant (decode, then encode).  This aims at the few instructions of an unsynchronised
+// publish; each family of the catalogue gives 12 attempts per process.
+
+type burstCase struct {
+	Family int    `json:"family"`
+	Kind   string `json:"kind"`
+	G      int    `json:"goroutines"`
+}
+
+func runBurst(job *wk.Job, w *wk.Worker, p *Params) error {
+	defer runtime.GOMAXPROCS(runtime.GOMAXPROCS(0))
+	runtime.GOMAXPROCS(8)
+	byFam := map[int][]tyreg.Entry{}
+	var fams []int
+	for _, e := range tyreg.Static {
+		if _, ok := byFam[e.Idx]; !ok {
+			fams = append(fams, e.Idx)
+		}
+		byFam[e.Idx] = append(byFam[e.Idx], e)
+	}
+	for i, fam := range fams {
+		idx := int64(i)
+		if !w.Mine(idx) {
+			continue
+		}
+		if p.Rounds > 0 && i >= p.Rounds*int(job.Shards) {
+			break
+		}
+		w.Begin(idx, func() interface{} { return burstCase{Family: fam} })
+		w.Nontrivial()
+		for _, e := range byFam[fam] {
+			burst(w, p, e, 4+(i%3)*2)
+		}
+	}
+	return nil
+}
+
+func burst(w *wk.Worker, p *Params, e tyreg.Entry, g int) {
+	v0 := e.New()
+	want, _ := stdjson.Marshal(v0)
+	t := reflect.TypeOf(v0)
+	var flag int32
+	var wg sync.WaitGroup
+	got := make([]result, 2*g)
+	for k := 0; k < g; k++ {
+		wg.Add(1)
+		go func(k int) {
+			defer wg.Done()
+			defer func() {
+				if x := recover(); x != nil {
+					got[2*k] = result{err: "panic: " + fmt.Sprint(x) + " @ " + libFrames()}
+				}
+			}()
+			for atomic.LoadInt32(&flag) == 0 {
+			}
+			dst := reflect.New(t)
+			if err := json.Unmarshal(want, dst.Interface()); err != nil {
+				got[2*k] = result{err: err.Error()}
+			} else {
+				got[2*k] = mk(stdjson.Marshal(dst.Elem().Interface()))
+			}
+			got[2*k+1] = mk(json.Marshal(e.New()))
+		}(k)
+	}
+	time.Sleep(50 * time.Microsecond)
+	atomic.StoreInt32(&flag, 1)
+	wg.Wait()
+	w.Count("calls", int64(2*g))
+	for k, r := range got {
+		if r.err != "" || r.out != string(want) {
+			op := "Unmarshal"
+			if k%2 == 1 {
+				op = "Marshal"
+			}
+			w.DivFine("concurrent|"+p.Variant+"|"+op, "burst "+op+" "+e.Kind, true,
+				fmt.Sprintf("first use of a cold %s type by %d goroutines at once: %s returned %q (err %q); alone it returns %q", e.Kind, g, op, clipS(r.out, 160), r.err, clipS(string(want), 160)),
+				burstCase{Family: e.Idx, Kind: e.Kind, G: g})
+			return
+		}
+	}
+}
+
+// libFrames names the innermost library frames of the current (panicking) stack.
+func libFrames() string {
+	pcs := make([]uintptr, 64)
+	n := runtime.Callers(3, pcs)
+	fr := runtime.CallersFrames(pcs[:n])
+	var out []string
+	for {
+		f, more := fr.Next()
+		if strings.Contains(f.Function, "goccy/go-json") {
+			out = append(out, fmt.Sprintf("%s:%d", strings.TrimPrefix(f.Function, "github.com/goccy/go-json/internal/"), f.Line))
+			if len(out) == 5 {
+				break
+			}
+		}
+		if !more {
+			break
+		}
+	}
+	return strings.Join(out, " < ")
 }
 
 func opClass(n string) string {
